@@ -354,3 +354,20 @@ Proof.
 Qed.
 End Subset.
 End Clauses.
+
+Lemma simloop_clauses_vocabulary :
+  forall (A D : Type) (piN : N -> N) (theta : nat -> A) (dur : nat -> D),
+  (injN piN <-> forall a b, piN a = piN b -> a = b) /\
+  (forall x, relabel_instr piN x = mkinstr (iname x) (map piN (iqs x)) (ics x)) /\
+  (forall qc, relabel_meas piN qc = (piN (fst qc), snd qc)) /\
+  (forall q, pi_nat piN q = N.to_nat (piN (N.of_nat q))) /\
+  (forall c t cs, dir_kept piN (mkinstr OpCx [c; t] cs) <-> (piN c <? piN t)%N = (c <? t)%N) /\
+  (forall c t cs, dir_kept piN (mkinstr OpEcr [c; t] cs) <-> (piN c <? piN t)%N = (c <? t)%N) /\
+  (forall q, relabel_tok A D piN (TT1 q) = TT1 (piN q) /\ relabel_tok A D piN (TT2 q) = TT2 (piN q) /\ relabel_tok A D piN (Tp q) = Tp (piN q) /\
+             relabel_tok A D piN (Ttm q) = Ttm (piN q) /\ relabel_tok A D piN (Trout q) = Trout (piN q)) /\
+  (forall c t, relabel_tok A D piN (Ttint c t) = Ttint (piN c) (piN t) /\ relabel_tok A D piN (Tpint c t) = Tpint (piN c) (piN t)) /\
+  (forall d a, relabel_tok A D piN (Ttime d) = Ttime d /\ relabel_tok A D piN (Ttheta a) = Ttheta a) /\
+  (forall data, ops_of A D theta dur data
+     = map (fun jx : nat * SimRun.instr => (theta (fst jx), dur (fst jx), snd jx))
+           (filter (fun jx : nat * SimRun.instr => negb (is_measure (iname (snd jx)))) (numbered data))).
+Proof. voc. Qed.
